@@ -108,7 +108,8 @@ def run(ctx):
                 for bs in (1, 2, 3, 5, 4096):
                     if not big and rng.random() < 0.5:
                         continue
-                    yield ("sockreader", {"S": S.hex(), "cuts": cuts, "bufsize": bs, "end": rng.choice(("close", "timeout", "reset")), "tls": len(cuts) % 2})
+                    yield ("sockreader", {"S": S.hex(), "cuts": cuts, "bufsize": bs, "end": rng.choice(("close", "timeout", "reset")), "tls": len(cuts) % 2,
+                                          "how": (len(cuts) + bs) % 4})
         # every very long frame / text line (tens of kilobytes, lines without LF for thousands of bytes) between two ordinary frames
         small = [x for x in pool if len(x[0]) < 60][:8]
         for k, x in enumerate(y for y in st.special_frames(rng) if len(y[0]) > 1000):
@@ -152,7 +153,7 @@ def run(ctx):
             yield ("sockreader", {"S": S.hex(), "cuts": cuts, "bufsize": rng.choice((1, 2, 3, 5, 64, 4096)), "end": rng.choice(("close", "timeout", "reset")),
                                   "msgmode": rng.choice((0, 0, 1, 3)), "pbf": rng.choice((0, 1)), "validate": rng.choice((1, 1, 0)),
                                   "filter": rng.choice((7, 7, 7, 1, 2, 4, 3, 5, 6)), "parsing": rng.choice((1, 1, 1, 0)), "quit": rng.choice((0, 1)),
-                                  "labelmsm": rng.choice((1, 2))})
+                                  "labelmsm": rng.choice((1, 2)), "how": k % 4})
 
     def gen_real():
         for k in range(24 if not big else 200):
